@@ -1,5 +1,6 @@
 """C06 - disjunction, if-then-else and negation follow standard semantics."""
-from .. import gen, progcheck
+from .. import gen, progcheck, par, pyraw
+from ..frame import Check
 PROP = 'C06'
 
 
@@ -7,11 +8,64 @@ def knobs(rnd):
     return gen.Knobs(cut=rnd.random() < 0.4, ctrl=True, eq=True, max_body=6, n_rules=(2, 4), recursive=0.1)
 
 
+V = lambda n: ('V', n)
+
+
+def reentry_case(rep, drv, rnd, i):
+    """constructs that are entered again and again: once per candidate of a generate-and-test condition
+    and once per answer of a goal in front of them; whatever state a construct keeps (its flag) must be
+    fresh at every entry"""
+    from .. import scen
+    from ..common import Sym
+    atoms = ['a', 'b', 'c', 'd']
+    cands = rnd.sample(atoms, rnd.randint(2, 4))
+    rej = [a for a in cands if rnd.random() < 0.5]
+    prog = [('c', [('A', a)], 'tru') for a in cands] + [('h', [('A', a)], 'tru') for a in rej] + [('h', [('A', 'zz')], 'tru')]
+    prog += [('k', [('A', a), ('A', b)], 'tru') for a in cands for b in cands if rnd.random() < 0.4] + [('k', [('A', 'zz'), ('A', 'zz')], 'tru')]
+    yes, no = ('call', '=', [V('R'), ('A', 'yes')]), ('call', '=', [V('R'), ('A', 'no')])
+
+    def test(goal):
+        return rnd.choice([('neg', goal), ('disj', ('ite', goal, 'fail'), 'tru'), ('neg', ('neg', goal)),
+                           ('disj', ('ite', goal, 'tru'), 'fail'), ('ite', goal, 'tru')])
+    hx = ('call', 'h', [V('X')])
+    kyx = ('call', 'k', [V('Y'), V('X')])
+    prog += [
+        ('t1', [V('X'), V('R')], ('disj', ('ite', ('conj', ('call', 'c', [V('X')]), test(hx)), yes), no)),
+        ('t2', [V('Y'), V('X'), V('R')], ('conj', ('call', 'c', [V('Y')]),
+                                           ('disj', ('ite', ('conj', ('call', 'c', [V('X')]), test(kyx)), yes), no))),
+        ('t3', [V('X')], ('conj', ('call', 'c', [V('X')]), test(hx))),
+        ('t4', [V('Y'), V('X')], ('conj', ('call', 'c', [V('Y')]), ('conj', ('call', 'c', [V('X')]), ('conj', test(kyx), test(hx))))),
+        ('t5', [V('X'), V('R')], ('disj', ('conj', ('call', 'c', [V('X')]), ('conj', test(hx), yes)),
+                                  ('conj', ('call', 'c', [V('X')]), ('conj', ('disj', ('ite', hx, yes), no), test(('call', 'k', [V('X'), V('X')])))))),
+    ]
+    ops = [('load', 'overwrite', prog)]
+    for name, ar in [('t1', 2), ('t2', 3), ('t3', 1), ('t4', 2), ('t5', 2)]:
+        ops.append(('query', name, ('all',), [[Sym('v'), j] for j in range(ar)]))
+    rep.count('re-entered-constructs')
+    if scen.three_way(rep, drv, ops, 'case %d re-entry' % i) == 'ok':
+        rep.nontriv(scen.norm(scen.ops_json(ops[:1])))
+
+
+def case(rep, drv, rnd, i, tier):
+    if i % 16 == 11:
+        return reentry_case(rep, drv, rnd, i)
+    if i % 8 == 7:
+        # tie T2q: flags, break, return and nested loops over generators as CPython runs them
+        return pyraw.case(rep, drv, rnd, i)
+    return progcheck.case(rep, drv, rnd, i, tier)
+
+
 def run(tier):
-    progcheck.run(PROP, tier, knobs, 900, 12000,
+    n = 1030 if tier == 'quick' else 13700
+    progcheck.configure(PROP, knobs=knobs, sched_mode='all', queries_per_prog=3)
+    with Check(PROP, tier) as chk:
+        par.run_cases(chk.rep, 'harness.checks.c06', 'case', n)
+        chk.finish(
                   rule='stratified random programs whose rule bodies nest ;, ->, -> without else and \\+ arbitrarily (cuts only in '
                        'transparent positions) with continuations after the construct; leaf goals have 0-3 solutions and bind '
-                       'distinct variables; non-trivial = the reference yields >= 1 answer; distinct = distinct (program, query)')
+                       'distinct variables; non-trivial = the reference yields >= 1 answer; distinct = distinct (program, query); one case in sixteen: generate-and-test '
+                       'conditions and constructs behind a generator, re-entered once per candidate; one case in '
+                       'eight is a generated script of the emitted Python subset run by CPython and by the model of Python (tie T2q)')
 
 
 replay = progcheck.replay
